@@ -208,9 +208,9 @@ PROPS = {
     "C08": {
         "level": "exploration",
         "technique": "same bounded-exhaustive history enumeration with saturation macro-operations and one-too-many probes after every step; port, node and event-id limits of all four messaging patterns: all histories of create/drop port, open/drop handle by further nodes, notify with ids at the bound, against a counting model (h_limits)",
-        "legs": [{"ws": "seq", "bin": "h_pubsub", "args": ["--prop", "C08"]}, {"ws": "seq", "bin": "h_reqres", "args": ["--prop", "C08"]}, {"ws": "seq", "bin": "h_limits"}],
+        "legs": [{"ws": "seq", "bin": "h_pubsub", "args": ["--prop", "C08"]}, {"ws": "seq", "bin": "h_reqres", "args": ["--prop", "C08"]}, {"ws": "seq", "bin": "h_limits"}, {"ws": "mc", "bin": "h_conn", "args": ["--prop", "C08", "--only", "data/"]}],
         "rule": "see coverage.legs[0].rule",
-        "assumptions": ["publish-subscribe loan/borrow/buffer limits: h_pubsub leg; request-response limits: h_reqres leg; wait-set attachment limit: C20", "limit values 1..3 (0 where accepted)", "port, node and event-id limits (h_limits): limits in {1,2}, event_id_max_value in {0,1,2}, local service in the quick tier (tree depth 4 + frontier over all model states to depth 10), ipc added in the thorough tier; the creator's node counts towards max_nodes, a second handle of a registered node does not"],
+        "assumptions": ["'a release never fails for lack of queue space' under concurrency: the data cases of h_conn (E1: a sender thread against a receiver thread on the real zero-copy connection, every schedule within PB 2; the receiver's release must never return RetrieveBufferFull)", "publish-subscribe loan/borrow/buffer limits: h_pubsub leg; request-response limits: h_reqres leg; wait-set attachment limit: C20", "limit values 1..3 (0 where accepted)", "port, node and event-id limits (h_limits): limits in {1,2}, event_id_max_value in {0,1,2}, local service in the quick tier (tree depth 4 + frontier over all model states to depth 10), ipc added in the thorough tier; the creator's node counts towards max_nodes, a second handle of a registered node does not"],
         "design_ref": "DESIGN.md §3.3, §4 C08",
         "level_text": "Over all histories up to the depth, including macro operations that fill every subscriber buffer, borrow the maximum and take all loans: a loan never fails for lack of memory and a release never for lack of queue space; after every step every limit-exceeding call (one publisher, subscriber, loan, borrow, buffer or history request too many) must fail with its documented error, leave all observables unchanged (control run) and succeed again once capacity is freed. Port, node and event-id limits (all four messaging patterns, h_limits): every history of port creation / drop, of opening / dropping the service from further nodes and of notify with ids at the bound; one too many fails with the documented ExceedsMax... / EventIdOutOfBounds error, leaves port counts, node list, files and the live ports' data path unchanged, and succeeds after a drop.",
         "level_note": "trusted: seqx engine, the reference model; bounded as C01",
